@@ -84,6 +84,7 @@ def run(prog, rep):
                       'double, string, array, object) x target kind: every number spelling loads into a floating target, integers go through the range-checked '
                       'conversion of the getter that is valid for their class, other kinds reach the mismatched-types policy', floor=10)
     json_load.check(prog, rep, 'R8.10')
+    check_xml_parse_options(prog, rep)
     rep.rule('R8.1', 'every rapidjson Accept() result is consumed', floor=4)
     rep.rule('R8.2', 'ParseStream over AutoUTFInputStream names AutoUTF as source encoding', floor=1)
     rep.rule('R8.3', 'ToRapidUtfType / ToPugiUtfType: each UtfType enumerator returns the like-named back-end constant; the default throws', floor=12)
@@ -271,3 +272,45 @@ def run(prog, rep):
                     rep.finding('R8.6', 'XML|stream input encoding', f.loc(n), 'XML stream input forces encoding %s instead of auto-detection' % es.get('n'), func=f.id)
     if n6 < 2:
         raise AnalysisBroken('R8.6: XML load anchors not found (%d)' % n6)
+
+
+def check_xml_parse_options(prog, rep):
+    """R8.11: the XML adapter parses a document with the same pugixml options whether it comes as a string or as a stream (the memory and
+    stream constructors are separate copies). The options word is a compile-time constant at every call (literal, pugi::parse_* expression or
+    the default argument parse_default); pugixml performs end-of-line normalisation, entity expansion and attribute whitespace conversion
+    only when the corresponding bit is set, so a copy that spells the flags out and forgets one reads different text from the same bytes."""
+    rep.rule('R8.11', 'XML: every pugi::xml_document::load* call of the adapter passes the same parse options (constant-evaluated; the default '
+                      'argument counts as pugi::parse_default), so string and stream loading read the same text', floor=2)
+    calls = []
+    for f in sorted(prog.funcs.values(), key=lambda g: g.id):
+        if f.body is None or 'pugixml_archive.h' not in f.relfile:
+            continue
+        nodes = list(f.walk()) + [x for i in f.raw.get('inits', []) if 'e' in i for x in f.walk(i['e'])]
+        for n in nodes:
+            if n['k'] != 'CXXMemberCallExpr':
+                continue
+            c = f.callee(n) or {}
+            if not (c.get('n', '').startswith('load') and c.get('q', '').startswith('pugi::xml_document::')):
+                continue
+            g_params = re.search(r'\((.*)\)', c['id'].split('|', 1)[1]).group(1).split(', ')
+            idx = [i for i, t in enumerate(g_params) if t.strip() == 'unsigned int']
+            if not idx:
+                continue
+            a = n['c'][1 + idx[0]] if len(n['c']) > 1 + idx[0] else None
+            calls.append((f, n, c['n'], a.get('cv') if a is not None else None, a is not None and a['k'] == 'CXXDefaultArgExpr'))
+    calls = list({(f.loc(n), nm): (f, n, nm, cv, dflt) for f, n, nm, cv, dflt in calls}.values())
+    if len(calls) < 2:
+        raise AnalysisBroken('R8.11: fewer than two pugi load calls found in the XML adapter (%d)' % len(calls))
+    ref = [cv for f, n, nm, cv, dflt in calls if dflt and cv is not None]
+    ref = ref[0] if ref else max(set(cv for _, _, _, cv, _ in calls if cv is not None), key=[cv for _, _, _, cv, _ in calls].count, default=None)
+    for f, n, nm, cv, dflt in sorted(calls, key=lambda x: x[0].loc(x[1])):
+        rep.touch(f)
+        site = '%s at %s' % (nm, f.loc(n))
+        if cv is None:
+            rep.finding('R8.11', '%s|options not constant' % nm, f.loc(n), 'pugi %s is called with parse options that are not a compile-time constant' % nm, func=f.id)
+        elif cv != ref:
+            rep.finding('R8.11', '%s|options differ' % nm, f.loc(n), 'pugi %s parses with options 0x%x, the other load call(s) of the adapter with 0x%x '
+                        '(bits 0x%x missing, 0x%x added): the same document gives different text depending on where it is loaded from'
+                        % (nm, cv, ref, ref & ~cv, cv & ~ref), func=f.id)
+        else:
+            rep.ok('R8.11', site, sample={'call': nm, 'options': '0x%x' % cv, 'default_argument': dflt})
